@@ -364,25 +364,29 @@ def names_ns(f):
     return {ps[0]: NS, ps[1]: 'ARGS'}
 
 
-def legacy_retry(ctx, cname):
-    """a function handler that raises TypeError is re-invoked only for the
+def legacy_retry(ctx, cname, fname='_trigger_event'):
+    """a handler that raises TypeError is re-invoked only for the
     'disconnect' event, without the last argument (handlers written before
     the reason argument existed), and that result is what is returned; for
     any other event the TypeError propagates."""
     m = ctx.model
-    f = m.method(cname, '_trigger_event')
-    construct = '%s._trigger_event' % cname
+    f = m.method(cname, fname)
+    construct = '%s.%s' % (cname, fname)
     ev = f.params[1]
 
     def fn_call(e, run):
         fx = run.expand(e.expr.func)
+        if fname == 'trigger_event':
+            # class-based namespace: getattr(self, 'on_' + event)(...)
+            return isinstance(fx, ast.Call) and U(fx.func) == 'getattr'
         return isinstance(fx, ast.Subscript) and \
             isinstance(fx.value, ast.Call) and is_const(fx.slice, 0) and \
             U(fx.value.func).endswith('_get_event_handler')
     def raiser2(e):
         # e.expr.func is a value symbol or a subscript of the lookup result
         t = U(e.expr.func) if e.kind == 'call' else ''
-        if e.kind == 'call' and (t.startswith('handler') or '[0]' in t):
+        if e.kind == 'call' and (t.startswith('handler') or '[0]' in t or
+                                 t.startswith('getattr(self')):
             return [{'TypeError'}]
         return None
     run = run_function(f, m, raiser=raiser2)
@@ -602,6 +606,7 @@ def r4_namespace_trigger(ctx, cname):
     f = m.method(cname, 'trigger_event')
     construct = '%s.trigger_event' % cname
     w = where(f)
+    legacy_retry(ctx, cname, 'trigger_event')
     run = run_function(f, m)
     ev = f.params[1]
     n_call = n_nocall = 0
